@@ -207,6 +207,30 @@ func runC01(c *core.Ctx) {
 			c01Rotation(c, o)
 		}
 	}
+	// metadata that publishes no signing key (keys for encryption only, or none): no key is trusted, whoever signs
+	for i := 0; i < c.Pick(24, 600); i++ {
+		if !mine() {
+			continue
+		}
+		lay := [][]string{{"idp_e"}, {"idp_e", "idp_s2"}, {"idp_s1"}, {}}[i%4]
+		sp := so.NewSP("meta-one-signing", fx.K("sp_rsa2048"))
+		var kds []saml.KeyDescriptor
+		for _, n := range lay {
+			kds = append(kds, saml.KeyDescriptor{Use: "encryption", KeyInfo: saml.KeyInfo{X509Data: saml.X509Data{X509Certificates: []saml.X509Certificate{{Data: fx.K(n).CertB64()}}}}})
+		}
+		sp.IDPMetadata.IDPSSODescriptors[0].KeyDescriptors = kds
+		signer := append(append([]string{}, lay...), "idp_s1", "idp_e")[c.Rng.Intn(len(lay)+2)]
+		b := c01Base{trust: so.Trust{Name: fmt.Sprintf("meta-encryption-only(%s)", strings.Join(lay, "+")), Roots: nil},
+			signer: signer, layout: c.Rng.Intn(3), enc: c.Rng.Intn(3) == 0, nA: 1, method: so.RSAMethods[c.Rng.Intn(4)]}
+		o.Reset()
+		raw, err := c01Build(o, b)
+		if err != nil {
+			c.Inconclusive("build: " + err.Error())
+			continue
+		}
+		c.Count("deliveries_for_metadata_without_signing_key")
+		c01Deliver(c, o, sp, b, c.Rng.Intn(2), raw, []string{"signed-by-key-published-for-encryption-only-or-not-at-all:" + signer})
+	}
 	// the clock near the edges of the trusted certificate's validity period: whatever an implementation decides about a
 	// certificate that is just about (in)valid, it still may only return content the key signed
 	for i := 0; i < c.Pick(400, 12000); i++ {
